@@ -12,6 +12,7 @@ import FastTicc.Model.Result
 import FastTicc.Model.MainLoop
 import FastTicc.Model.Numeric
 import FastTicc.Model.Heap
+import FastTicc.Model.Run
 
 open FastTicc FastTicc.Proto
 
@@ -121,6 +122,40 @@ def parseFloat? (s : String) : Option Float :=
   | [a] => (a.toInt?).map Float.ofInt
   | [a, b] => do let n ← a.toInt?; let d ← b.toNat?; pure (Float.ofInt n / Float.ofNat d)
   | _ => none
+
+/-! whole-run replay: `replayrun T d K m limit half nwlog2pi betas data init rounds`
+rounds = `@`-separated blocks `thetas#logdets#spreads#order#picks`, thetas = `|`-separated K matrices. -/
+structure RoundOracle where
+  thetas : List (List (List Rat))
+  logdets : List Rat
+  spreads : List Rat
+  order : List Nat
+  picks : List (List Nat)
+
+def parseRound? (blk : String) : Option RoundOracle :=
+  match blk.splitOn "#" with
+  | [th, ld, sp, od, pk] => do
+    let thetas ← parseListWith parseRatss? "|" th
+    let logdets ← parseRats? ld
+    let spreads ← parseRats? sp
+    let order ← parseNats? od
+    let picks ← parseNatss? pk
+    pure ⟨thetas, logdets, spreads, order, picks⟩
+  | _ => none
+
+def replayRun (T d K m limit : Nat) (half nwl : Rat) (betas : List Rat) (data : List (List Rat))
+    (init : List Nat) (rounds : List RoundOracle) : String :=
+  let inp : Run.Input Rat := ⟨T, d, K, m, matFn data, betas, half, nwl⟩
+  let get (r : Nat) : RoundOracle := rounds.getD r ⟨[], [], [], [], []⟩
+  let orc : Run.Oracles Rat :=
+    { theta := fun r k i j => (((get r).thetas.getD k []).getD i []).getD j 0
+      logDet := fun r k => (get r).logdets.getD k 0
+      spread := fun r k => (get r).spreads.getD k 0
+      order := fun r => (get r).order
+      pick := fun r => Repop.pickOfRecorded m (get r).picks }
+  match Run.run inp orc limit init with
+  | .ok o => s!"ok {o.rounds} " ++ showNatss (o.history.map (·.labels)) ++ " " ++ showRats (o.history.map (·.cost))
+  | .error e => s!"err {e}"
 
 def bad : String := "bad-op"
 
@@ -315,6 +350,13 @@ def step (line : String) : String :=
       let r := MainLoop.admmRun (fun s : MainLoop.Admm Nat => ⟨s.x + 1, s.x + 1, s.u⟩)
         (fun s' _ => st.getD (s'.x - 1) 0 == 1) (fun s _ => s) m 0
       pure s!"{r.1} {r.2}"
+  -- ---------------------------------------------------------------- whole-run replay
+  | ["replayrun", T, d, K, m, limit, half, nwl, betas, data, init, rounds] => opt do
+      let T ← parseNat? T; let d ← parseNat? d; let K ← parseNat? K; let m ← parseNat? m; let limit ← parseNat? limit
+      let half ← parseRat? half; let nwl ← parseRat? nwl
+      let betas ← parseRats? betas; let data ← parseRatss? data; let init ← parseNats? init
+      let rs ← (splitList rounds "@").mapM parseRound?
+      pure (replayRun T d K m limit half nwl betas data init rs)
   -- ---------------------------------------------------------------- C08
   | ["repop", K, m, spreads, order, recorded, labels] => opt do
       let K ← parseNat? K; let m ← parseNat? m
